@@ -1362,6 +1362,9 @@ def main(argv: List[str]) -> int:
                 # any other (e.g. behaviour that depends on recycled memory addresses shows only sometimes)
                 for v in r.get("violations", []):
                     first_fail.setdefault(v["sig"], (task_by_seed[sample[i]], r))
+                if r.get("harness"):
+                    rep.harness_error(f"determinism re-run of run_seed={sample[i]} failed in the harness: {r['harness']}")
+                    continue
                 if r.get("digest") != by_seed[sample[i]].get("digest"):
                     det_mismatch += 1
                     extra = "; ".join(v["msg"][:300] for v in r.get("violations", [])[:1]) or f"harness={r.get('harness')}"
